@@ -125,12 +125,15 @@ func (p *Proof) IsValid(public Public) bool {
 		return false
 	}
 
-	N := public.N.Big()
-	if big.Jacobi(p.W, N) != -1 {
+	if public.N == nil {
 		return false
 	}
-
+	N := public.N.Big()
+	// range (and nil) checks come first: Jacobi panics on a nil argument
 	if !arith.IsValidBigModN(N, p.W) {
+		return false
+	}
+	if big.Jacobi(p.W, N) != -1 {
 		return false
 	}
 	for _, r := range p.Responses {
@@ -225,7 +228,7 @@ func (r *Response) Verify(n, w, y *big.Int) bool {
 }
 
 func (p *Proof) Verify(public Public, hash *hash.Hash, pl *pool.Pool) bool {
-	if p == nil {
+	if p == nil || public.N == nil {
 		return false
 	}
 	n := public.N.Big()
@@ -235,11 +238,8 @@ func (p *Proof) Verify(public Public, hash *hash.Hash, pl *pool.Pool) bool {
 		return false
 	}
 
-	if big.Jacobi(p.W, n) != -1 {
-		return false
-	}
-
-	if !arith.IsValidBigModN(n, p.W) {
+	// W, and every response X, Z must be valid elements of ℤₙˣ (this also excludes nil fields)
+	if !p.IsValid(public) {
 		return false
 	}
 
